@@ -42,6 +42,18 @@ func (c17Logger) Log(logger.Level, string, ...any) {}
 
 const c17Wait = 20 * time.Second
 
+// c17TimedOut is set by the first expired wait of the process. The case has failed at that point; the waits of
+// the shrinking runs that follow use a much shorter bound so that a "never delivered" failure does not cost
+// 20 s per shrink attempt.
+var c17TimedOut atomic.Bool
+
+func c17After() <-chan time.Time {
+	if c17TimedOut.Load() {
+		return time.After(1500 * time.Millisecond)
+	}
+	return time.After(c17Wait)
+}
+
 type c17Format struct {
 	media *description.Media
 	forma format.Format
@@ -237,7 +249,8 @@ func (h *c17Gated) expectEntered(g *c17GReader) {
 	select {
 	case ev := <-g.entered:
 		h.checkEvent(g, ev, head)
-	case <-time.After(c17Wait):
+	case <-c17After():
+		c17TimedOut.Store(true)
 		h.fail("reader %d: unit f%d#%d was accepted (queue had room) but its callback did not start within %v; discarded counter=%d model=%d",
 			g.id, head.fi, head.n, c17Wait, g.r.OutboundFramesDiscarded(), g.dropped)
 	}
@@ -328,7 +341,8 @@ func (h *c17Gated) opRelease(g *c17GReader, k int) {
 		g.gate <- struct{}{}
 		select {
 		case <-g.exited:
-		case <-time.After(c17Wait):
+		case <-c17After():
+			c17TimedOut.Store(true)
 			h.fail("reader %d: released callback did not return", g.id)
 		}
 		g.inCallback = nil
@@ -353,7 +367,8 @@ func (h *c17Gated) opRemove(g *c17GReader) {
 		case <-done:
 		case ev := <-g.entered:
 			h.fail("reader %d: callback for f%d started during RemoveReader of an idle reader with an empty queue", g.id, ev.fi)
-		case <-time.After(c17Wait):
+		case <-c17After():
+			c17TimedOut.Store(true)
 			fmt.Println("VERIF-INCONCLUSIVE: RemoveReader of an idle reader did not return within", c17Wait)
 			h.fail("RemoveReader of idle reader %d did not return", g.id)
 		}
@@ -414,7 +429,8 @@ func (h *c17Gated) opRemove(g *c17GReader) {
 			g.inCallback = nil
 			g.queue = nil
 			return
-		case <-time.After(c17Wait):
+		case <-c17After():
+			c17TimedOut.Store(true)
 			fmt.Println("VERIF-INCONCLUSIVE: RemoveReader did not return within", c17Wait, "after the blocked callback was released")
 			h.fail("RemoveReader of reader %d did not return after its blocked callback was released", g.id)
 		}
@@ -463,7 +479,8 @@ func TestVerifC17Delivery(t *testing.T) {
 					case <-g.exited:
 					case <-g.done:
 						break loop
-					case <-time.After(c17Wait):
+					case <-c17After():
+						c17TimedOut.Store(true)
 						break loop
 					}
 				}
@@ -712,7 +729,11 @@ func TestVerifC17Concurrent(t *testing.T) {
 			for fi := range cr.subs {
 				written += int64(perFormat[fi])
 			}
-			deadline := time.Now().Add(c17Wait)
+			wait := c17Wait
+			if c17TimedOut.Load() {
+				wait = 1500 * time.Millisecond
+			}
+			deadline := time.Now().Add(wait)
 			for {
 				sum := cr.received.Load() + int64(cr.r.OutboundFramesDiscarded())
 				if sum == written {
@@ -722,6 +743,7 @@ func TestVerifC17Concurrent(t *testing.T) {
 					t.Fatalf("reader %d: received %d + discarded %d > written %d", cr.id, cr.received.Load(), cr.r.OutboundFramesDiscarded(), written)
 				}
 				if time.Now().After(deadline) {
+					c17TimedOut.Store(true)
 					t.Fatalf("reader %d: received %d + discarded %d != written %d after the writers finished and %v of idle time (a unit was neither delivered nor counted)",
 						cr.id, cr.received.Load(), cr.r.OutboundFramesDiscarded(), written, c17Wait)
 				}
